@@ -48,6 +48,11 @@ SIG = {
                                [('hrp', 'List Char'), ('data', 'List Int'), ('spec', 'Int')], 'List Int'),
     'convertbits': ('bech32.py', 'convertbits',
                     [('data', 'List Int'), ('frombits', 'Int'), ('tobits', 'Int'), ('pad', 'Bool')], 'Option (List Int)'),
+    # the rest of the bundled RIPEMD-160
+    'rmd_compress': ('ripemd160.py', 'compress',
+                     [('h0', 'Int'), ('h1', 'Int'), ('h2', 'Int'), ('h3', 'Int'), ('h4', 'Int'), ('block', 'Bytes')],
+                     'Int × Int × Int × Int × Int'),
+    'rmd_ripemd160': ('ripemd160.py', 'ripemd160', [('data', 'Bytes')], 'Bytes'),
     # the curve arithmetic of the bundled BIP340 reference code (points: None | (x, y))
     'schnorr_point_add': ('schnorr.py', 'point_add', [('P1', 'Point'), ('P2', 'Point')], 'Point'),
     'schnorr_point_mul': ('schnorr.py', 'point_mul', [('P', 'Point'), ('n', 'Int')], 'Point'),
@@ -64,7 +69,8 @@ WHILE_FUEL = {'convertbits': '(Int.toNat bits + 1)'}
 # return types of translated callees that are lists (for `+` -> `++`)
 LIST_RET = {'bech32_hrp_expand', 'bech32_create_checksum'}
 POINT_RET = {'point_add': 'schnorr_point_add', 'point_mul': 'schnorr_point_mul', 'lift_x': 'schnorr_lift_x'}
-CALLS = {'encode_varint': 'encode_varint', 'prepend_compact_size': 'prepend_compact_size',
+CALLS = {'rol': 'rmd_rol', 'fi': 'rmd_fi',
+         'encode_varint': 'encode_varint', 'prepend_compact_size': 'prepend_compact_size',
          '_op_push_data': 'op_push_data', 'parse_compact_size': 'parse_compact_size',
          'bech32_polymod': 'bech32_polymod', 'bech32_hrp_expand': 'bech32_hrp_expand'}
 IDENT = {'h_to_b', 'b_to_h'}  # hex strings that denote data are modelled as the bytes they denote
@@ -89,7 +95,7 @@ def blit(b):
 
 class Tr:
     def __init__(s, name, file=None):
-        s.name = name; s.tmp = 0; s.pre = []; s.declared = set(); s.points = set()
+        s.name = name; s.tmp = 0; s.pre = []; s.declared = set(); s.points = set(); s.tuple5 = set()
         s.fconsts = FILE_CONSTS.get(file, {})
 
     def fail(s, n, why):
@@ -143,6 +149,8 @@ class Tr:
         if isinstance(n, ast.BinOp):
             a, b = s.e(n.left), s.e(n.right)
             op = {ast.Add: '+', ast.Sub: '-', ast.Mult: '*', ast.FloorDiv: '/', ast.Mod: '%'}.get(type(n.op))
+            if op == '*' and isinstance(n.left, ast.Constant) and isinstance(n.left.value, bytes):
+                return f'(Py.bytesRepeat {a} {b})'
             if op == '+' and (s.isbytes(n.left) or s.isbytes(n.right)): return f'({a} ++ {b})'
             if op: return f'({a} {op} {b})'
             if isinstance(n.op, ast.LShift): return s.eff(f'Py.shl {a} {b}')
@@ -193,7 +201,8 @@ class Tr:
                 return f'(Py.slice {v} {lo} {hi})'
             if isinstance(n.value, ast.Call) and isinstance(n.slice, ast.Constant) and n.slice.value == 0:
                 return v     # struct.unpack(...)[0]
-            if isinstance(n.value, ast.Name) and n.value.id in s.intlists:
+            if isinstance(n.value, ast.Name) and (n.value.id in s.intlists or
+                                                   (n.value.id not in s.declared and s.fconsts.get(n.value.id, '').startswith('(['))):
                 return s.eff(f'Py.indexL {v} {s.e(n.slice)}')
             return s.eff(f'Py.index {v} {s.e(n.slice)}')
         if isinstance(n, ast.Tuple): return '(' + ', '.join(s.e(x) for x in n.elts) + ')'
@@ -229,6 +238,7 @@ class Tr:
             if n.id not in s.declared and CONSTS.get(n.id, '').startswith('['): return 'bytes'
             return None
         if isinstance(n, ast.BinOp) and isinstance(n.op, ast.Add): return s.kind(n.left) or s.kind(n.right)
+        if isinstance(n, ast.BinOp) and isinstance(n.op, ast.Mult) and isinstance(n.left, ast.Constant) and isinstance(n.left.value, bytes): return 'bytes'
         if isinstance(n, ast.Call):
             f = n.func
             nm = f.attr if isinstance(f, ast.Attribute) else getattr(f, 'id', '')
@@ -245,6 +255,7 @@ class Tr:
             return (n.id in s.bytesvars or n.id in s.intlists or n.id in s.charlists
                     or (n.id not in s.declared and CONSTS.get(n.id, '').startswith('[')))
         if isinstance(n, ast.BinOp) and isinstance(n.op, ast.Add): return s.isbytes(n.left) or s.isbytes(n.right)
+        if isinstance(n, ast.BinOp) and isinstance(n.op, ast.Mult): return isinstance(n.left, ast.Constant) and isinstance(n.left.value, bytes)
         if isinstance(n, ast.Call):
             f = n.func
             nm = f.attr if isinstance(f, ast.Attribute) else getattr(f, 'id', '')
@@ -281,9 +292,28 @@ class Tr:
             if f.id == 'int' and len(args) == 1: return s.e(args[0])
             if f.id == 'bytes' and isinstance(args[0], ast.List):
                 return s.eff('Py.bytesOfInts [' + ', '.join(s.e(x) for x in args[0].elts) + ']')
+            if f.id == 'compress' and 'ML' in s.fconsts and len(args) == 2 and isinstance(args[0], ast.Starred) \
+                    and isinstance(args[0].value, ast.Name) and args[0].value.id in s.tuple5:
+                t = args[0].value.id
+                comps = f'{t}.1 {t}.2.1 {t}.2.2.1 {t}.2.2.2.1 {t}.2.2.2.2'
+                return s.eff(f'rmd_compress {comps} {s.e(args[1])}')
             if f.id in CALLS: return s.eff(f'{CALLS[f.id]} ' + ' '.join(s.e(a) for a in args))
             if f.id == 'isinstance': return 'true'     # argument types are fixed by the signature table
         if isinstance(f, ast.Attribute):
+            if (f.attr == 'join' and isinstance(f.value, ast.Constant) and f.value.value == b'' and len(args) == 1
+                    and isinstance(args[0], ast.GeneratorExp) and len(args[0].generators) == 1
+                    and isinstance(args[0].generators[0].iter, ast.Name) and args[0].generators[0].iter.id in s.tuple5
+                    and isinstance(args[0].generators[0].target, ast.Name) and not args[0].generators[0].ifs):
+                # b"".join(f(h) for h in <5-tuple>): the five values in order
+                g = args[0].generators[0]; t = g.iter.id; v = g.target.id
+                parts = []
+                for comp in ('.1', '.2.1', '.2.2.1', '.2.2.2.1', '.2.2.2.2'):
+                    class Sub(ast.NodeTransformer):
+                        def visit_Name(self, n):
+                            return ast.copy_location(ast.Name(id=f'{t}{comp}', ctx=ast.Load()), n) if n.id == v else n
+                    import copy
+                    parts.append(s.e(Sub().visit(copy.deepcopy(args[0].elt))))
+                return '(' + ' ++ '.join(parts) + ')'
             if isinstance(f.value, ast.Name) and f.value.id == 'self' and f.attr in CALLS:
                 return s.eff(f'{CALLS[f.attr]} ' + ' '.join(s.e(a) for a in args))
             if f.attr == 'to_bytes':
@@ -339,6 +369,9 @@ class Tr:
             if not isinstance(tg, ast.Name): s.fail(st, 'assignment target')
             k = s.kind(st.value)
             v = s.e(st.value); name = tg.id
+            if (isinstance(st.value, ast.Tuple) and len(st.value.elts) == 5) or \
+                    (isinstance(st.value, ast.Call) and isinstance(st.value.func, ast.Name) and st.value.func.id == 'compress'):
+                s.tuple5.add(name)
             if s.ispoint(st.value) or (v == 'none' and s.ret == POINT):
                 s.points.add(name)
                 if v == 'none': v = f'(none : {POINT})'
@@ -568,6 +601,9 @@ def main():
         CONSTS['BECH32M_CONST'] = f'({b32.BECH32M_CONST} : Int)'
         for k in ('BECH32', 'BECH32M'):
             CONSTS[f'Encoding.{k}'] = f'({getattr(b32.Encoding, k).value} : Int)'
+        rmd = mods['ripemd160']
+        FILE_CONSTS['ripemd160.py'] = {k: '([' + ', '.join(f'({x} : Int)' for x in getattr(rmd, k)) + '] : List Int)'
+                                       for k in ('ML', 'MR', 'RL', 'RR', 'KL', 'KR')}
         sch = mods['schnorr']
         FILE_CONSTS['schnorr.py'] = {'p': f'({sch.p} : Int)', 'n': f'({sch.n} : Int)',
                                      'G': f'(some (({sch.G[0]} : Int), ({sch.G[1]} : Int)) : {POINT})'}
